@@ -1027,6 +1027,8 @@ class Evaluator:
             e = stores[0]
             tgt = e.data['target_expr']
             idx, v = e.data['index'], e.data['value']
+            if isinstance(v, Term) and v.kind not in ('ndarray', 'list', 'tuple', 'dict', 'str'):
+                v = self.as_num(v) or v         # an opaque scalar (the result of calling a parameter) is a value like any other
             before = st.env.get(tgt.id)
             if isinstance(before, Num) and before.length is not None and before.length == ctx.hi and isinstance(idx, Num) and idx.length is None \
                     and idx.r == ctx.sym and isinstance(v, Num) and v.length is None:
